@@ -290,6 +290,10 @@ def asarray(x, xp: Any = None, dtype: Any | None = None, **kwargs) -> Array:
             tensor = tensor.to(resolve_dtype(dtype, xp=xp))
         return tensor
 
+    # Tensors that require grad cannot be exported to another namespace
+    if is_torch_array(x) and not is_torch_namespace(xp):
+        x = x.detach()
+
     if dtype is not None:
         kwargs["dtype"] = resolve_dtype(dtype, xp=xp)
     return xp.asarray(x, **kwargs)
